@@ -1,5 +1,5 @@
 """Closed tables of the path interpreter (reviewed against the repository)."""
-PATH_CAP = 20000
+PATH_CAP = 80000
 DEPTH_CAP = 24
 
 INLINE_PREFIXES = (
